@@ -5,6 +5,7 @@
 import Upnp.Proto
 import Upnp.Spec.C06
 import Upnp.Gen.C06Types
+import Upnp.Model.C06Anc
 namespace Upnp.C06.Wire
 open Upnp Upnp.Proto Upnp.C06
 
@@ -75,10 +76,9 @@ def excInfo? : List String → Option (Option ExcInfo)
   | [cls, mro] => some (some { cls := cls, mro := if mro = "~" then [] else mro.splitOn "," })
   | _ => none
 
-/-- the observable form of an exception the model raises: class token and sorted library ancestors -/
-def modelExc (e : Exc) : ExcInfo :=
-  let cls := e.tok
-  { cls := cls, mro := (Gen.C06Types.excAncestors.lookup cls).getD [] }
+/-- the observable form of an exception the model raises: `C06.excInfo` (the definition the
+    theorems use) with the generated hierarchy -/
+def modelExc (e : Exc) : ExcInfo := excInfo genAnc e
 
 def excShow : Option ExcInfo → String
   | none => "~"
